@@ -1666,7 +1666,8 @@ class Fxp():
         self.status = {
             'overflow': False,
             'underflow': False,
-            'inaccuracy': False}
+            'inaccuracy': False,
+            'extended_prec': self.status.get('extended_prec', False)}
 
     def _convert_op_input_value(self, x, op_input_size=None):
         if not isinstance(x, Fxp):
